@@ -25,7 +25,7 @@ META = {
                   'random deeper stacks are recorded and judged by TLC against the same actions.',
     'level_note': 'Bounds: exhaustive N<=2 components, K<=2 faults, <=1 hook of each kind (quick) / N<=3 (thorough); '
                   'random: 4-6 components, <=3 hooks of each kind, <=5 faults. Lifespan: <=4 components exhaustively, '
-                  '<=8 randomly. Error handlers that themselves raise a non-HTTP exception end the request (modelled, '
+                  '<=8 randomly, 2-3 lifespan cycles on one app object (<=4 randomly) with add_middleware between. Error handlers that themselves raise a non-HTTP exception end the request (modelled, '
                   'outside the promise). WebSocket middleware methods are not covered. Trusted: TLC, CPython C3 '
                   'linearisation, engine/drivers.py.',
 }
@@ -37,51 +37,54 @@ OWN = 'P3'          # clause prefix this check alarms on; P4 clauses belong to C
 
 
 def lifespan_legs(ctx):
-    r = ctx.tlc('MC_Lifespan', 'MC_Lifespan.cfg', coverage=True, workers=4, timeout=300)
+    r = ctx.tlc('MC_Lifespan', ctx.pick('MC_LifespanQ.cfg', 'MC_Lifespan.cfg'), coverage=True, workers=4, timeout=600)
     ctx.extra['lifespan_action_coverage'] = H.require_actions(
-        r, ['RecvStartup', 'XStartupOk', 'XStartupRaise', 'StartupSkip', 'StartupDone', 'RecvShutdown', 'XShutdownOk',
-            'XShutdownRaise', 'ShutdownSkip', 'ShutdownDone'])
-    ra = ctx.tlc('MC_Lifespan', 'MC_LifespanA.cfg', workers=2, timeout=300, count=False)
+        r, ['AddMiddleware', 'Enter', 'RecvStartup', 'XStartupOk', 'XStartupRaise', 'StartupSkip', 'StartupDone', 'Abandon',
+            'RecvShutdown', 'XShutdownOk', 'XShutdownRaise', 'ShutdownSkip', 'ShutdownDone'])
+    # leg A: whole histories of one application object (2-3 cycles, add_middleware in between)
+    ra = ctx.tlc('MC_Lifespan', ctx.pick('MC_LifespanA.cfg', 'MC_LifespanA2.cfg'), workers=2, timeout=600, count=False)
     n = 0
     for b in {digest(b): b for b in ra.json}.values():
-        hs = [sorted(s) for s in b['hs']]
-        plan = [c['act'] for c in b['calls']]
-        started = bool(b['sent'])
-        if not started:
-            continue
-        calls, sent, exc = H.run_lifespan(hs, plan, send_shutdown=b['shutdown'], with_request_method=len(b['calls']) % 4)
-        case = {'leg': 'A-lifespan', 'hs': hs, 'plan': plan, 'shutdown': b['shutdown'], 'spec_calls': b['calls'], 'spec_sent': b['sent']}
-        ctx.case(case, nontrivial=('raise' in plan) or sum(1 for s in hs if 'startup' in s) >= 2 or
-                 sum(1 for s in hs if 'shutdown' in s) >= 2, key=digest(case))
+        hs0, cycles, plan, exp = H.lifespan_history(b)
+        got = H.run_lifespan(hs0, cycles, plan, with_request_method=len(plan) % 4, add_via_list=bool(len(plan) & 1))
+        case = {'leg': 'A-lifespan', 'hs0': hs0, 'cycles': cycles, 'plan': plan, 'spec': exp}
+        ctx.case(case, nontrivial=len(cycles) >= 2 or 'raise' in plan, key=digest(case))
         n += 1
-        if exc is not None:
-            ctx.violation('P3:lifespan-escaped', case, 'lifespan handling raised %r' % (exc,))
-        elif calls != b['calls']:
-            ctx.violation('P3:lifespan-order', dict(case, got=calls), 'handler calls %r, specified %r' % (calls, b['calls']))
-        elif sent != b['sent']:
-            ctx.violation('P3:lifespan-events', dict(case, got=sent), 'events %r, specified %r' % (sent, b['sent']))
+        for k, ((calls, sent, exc), (ecalls, esent)) in enumerate(zip(got, exp), 1):
+            if exc is not None:
+                ctx.violation('P3:lifespan-escaped', case, 'cycle %d: lifespan handling raised %r' % (k, exc))
+            elif calls != ecalls:
+                ctx.violation('P3:lifespan-order', dict(case, got=calls), 'cycle %d: handler calls %r, specified %r' % (k, calls, ecalls))
+            elif sent != esent:
+                ctx.violation('P3:lifespan-events', dict(case, got=sent), 'cycle %d: events %r, specified %r' % (k, sent, esent))
+            else:
+                continue
+            break
     ctx.traces_validated += n
+    # leg B: longer random histories, judged by TLC
     rng = ctx.rng
     traces, cases = {}, {}
     for _ in range(ctx.pick(400, 6000)):
-        hs = [sorted(rng.sample(['startup', 'shutdown'], rng.randint(0, 2))) for _ in range(rng.randint(3, 8))]
-        nraise = rng.choice([0, 0, 1, 1, 2])
-        plan = ['raise' if rng.random() < 0.15 and nraise else 'ok' for _ in range(16)]
-        sd = rng.random() < 0.8
-        calls, sent, exc = H.run_lifespan(hs, plan, send_shutdown=sd, with_request_method=rng.randrange(256))
-        t = {'hs': hs, 'shutdown': sd, 'ev': calls, 'sent': sent}
-        case = {'leg': 'B-lifespan', 'hs': hs, 'plan': plan, 'shutdown': sd}
-        ctx.case(case, nontrivial=any(c['act'] == 'raise' for c in calls) or len(calls) >= 2, key=digest(t))
-        if exc is not None:
-            ctx.violation('P3:lifespan-escaped', case, 'lifespan handling raised %r' % (exc,))
+        hs0 = [sorted(rng.sample(['startup', 'shutdown'], rng.randint(0, 2))) for _ in range(rng.randint(2, 7))]
+        cycles = [{'adds': [sorted(rng.sample(['startup', 'shutdown'], rng.randint(1, 2))) for _ in range(rng.choice([0, 0, 1, 2]))]
+                   if k else [], 'shutdown': rng.random() < 0.85} for k in range(rng.randint(1, 4))]
+        nraise = rng.choice([0, 0, 1, 2])
+        plan = ['raise' if rng.random() < 0.1 and nraise else 'ok' for _ in range(60)]
+        got = H.run_lifespan(hs0, cycles, plan, with_request_method=rng.randrange(256), add_via_list=rng.random() < 0.5)
+        t = {'hs0': hs0, 'cycles': [dict(cy, ev=calls, sent=sent) for cy, (calls, sent, _) in zip(cycles, got)]}
+        case = {'leg': 'B-lifespan', 'hs0': hs0, 'cycles': cycles, 'plan': plan}
+        ctx.case(case, nontrivial=len(cycles) >= 2 or any(c['act'] == 'raise' for calls, _, _ in got for c in calls), key=digest(t))
+        excs = [exc for _, _, exc in got if exc is not None]
+        if excs:
+            ctx.violation('P3:lifespan-escaped', case, 'lifespan handling raised %r' % (excs,))
             continue
         traces[digest(t)] = t
         cases[digest(t)] = case
     keys = list(traces)
     for k, v in zip(keys, ctx.judge('LifespanTrace', [traces[k] for k in keys], workers=4, timeout=600)):
         if v != 'ok':
-            ctx.violation(v.split('@')[0], dict(cases[k], trace=traces[k]), 'trace rejected by LifespanTrace at %s' % v)
-    ctx.progress('lifespan: %d behaviours replayed, %d traces judged' % (n, len(keys)))
+            ctx.violation(v.split('@')[0], dict(cases[k], trace=traces[k]), 'trace rejected by LifespanTrace at (cycle-1)*1000+event %s' % v)
+    ctx.progress('lifespan: %d histories replayed, %d traces judged' % (n, len(keys)))
 
 
 def run(ctx):
@@ -104,7 +107,7 @@ def run(ctx):
     ctx.progress('leg M done: %d distinct states' % r.distinct)
 
     # ---- leg A ---------------------------------------------------------------------------------
-    ra = ctx.tlc('MC_Pipeline', ctx.pick('MC_PipelineA.cfg', 'MC_PipelineA2.cfg'), env=env, workers=4,
+    ra = ctx.tlc('MC_PipelineS', ctx.pick('MC_PipelineS_A.cfg', 'MC_PipelineS_A2.cfg'), env=env, workers=4,
                  timeout=ctx.pick(280, 1500), count=False)
     behaviours = list({digest(b): b for b in ra.json}.values())
     ctx.extra['spec_behaviours_exported'] = len(behaviours)
@@ -115,7 +118,7 @@ def run(ctx):
     else:
         ctx.exhaustive = True
     H.replay_behaviours(ctx, OWN, behaviours, both=False, seen_other=seen_other, label='leg A (exhaustive export)')
-    rs = ctx.tlc('MC_Pipeline', 'MC_PipelineSim.cfg', env=env, simulate={'num': ctx.pick(60, 1500)}, depth=40,
+    rs = ctx.tlc('MC_PipelineS', 'MC_PipelineS_Sim.cfg', env=env, simulate={'num': ctx.pick(60, 1500)}, depth=40,
                  seed=ctx.seed + 1, workers=4, timeout=600, count=False)
     deep = list({digest(b): b for b in rs.json}.values())
     ctx.rng.shuffle(deep)
@@ -126,11 +129,12 @@ def run(ctx):
     rng = ctx.rng
     for k in range(ctx.pick(6000, 120000)):
         asgi = bool(k & 1)
-        trace, case, rec, res, got = H.random_trace(rng, asgi=asgi, ncomp=rng.randint(4, 6), maxhooks=3, regs=H.C3REGS,
-                                             classes=H.ALL_CLASSES)
-        ctx.case(case, nontrivial=H.nontrivial_c03(case['cfg'], rec.calls), key=digest(trace))
-        if rec.wrong or res.errors:
-            ctx.violation('P3:protocol', case, 'harness anomaly %r / protocol errors %r' % (rec.wrong, res.errors))
+        trace, case, runs = H.random_trace(rng, asgi=asgi, ncomp=rng.randint(4, 6), maxhooks=3, regs=H.C3REGS,
+                                           classes=H.ALL_CLASSES, nreqs=1 if k % 8 else 2)
+        ctx.case(case, nontrivial=any(H.nontrivial_c03(case['cfg'], rec.calls) for rec, _, _ in runs), key=digest(trace))
+        bad = [(rec.wrong, res.errors) for rec, res, _ in runs if rec.wrong or res.errors]
+        if bad:
+            ctx.violation('P3:protocol', case, 'harness anomaly / protocol errors %r' % (bad,))
             continue
         items.append((trace, case))
     ctx.progress('leg B: %d executions recorded' % len(items))
@@ -145,12 +149,13 @@ def run(ctx):
 
 def replay(ctx, case):
     if case.get('leg', '').endswith('lifespan'):
-        calls, sent, exc = H.run_lifespan(case['hs'], case['plan'], send_shutdown=case['shutdown'])
-        print('calls:', calls, '\nsent:', sent, '\nexc:', exc)
-        t = {'hs': case['hs'], 'shutdown': case['shutdown'], 'ev': calls, 'sent': sent}
+        got = H.run_lifespan(case['hs0'], case['cycles'], case['plan'])
+        for k, (calls, sent, exc) in enumerate(got, 1):
+            print('cycle %d calls: %r\n        sent: %r exc: %r' % (k, calls, sent, exc))
+        t = {'hs0': case['hs0'], 'cycles': [dict(cy, ev=calls, sent=sent) for cy, (calls, sent, _) in zip(case['cycles'], got)]}
         v = ctx.judge('LifespanTrace', [t], workers=1)[0]
         print('verdict:', v)
-        if v != 'ok' or exc is not None:
+        if v != 'ok' or any(exc is not None for _, _, exc in got):
             ctx.violation(v.split('@')[0], case, 'lifespan trace rejected: %s' % v)
         return
     H.replay_request(ctx, case)
